@@ -439,5 +439,22 @@ _amend("C13", "text", "(R13.1-R13.7, DESIGN.md §4 C13)", "(R13.1-R13.9, DESIGN.
 _amend("C16", "text", "for a frozen table of (option, effect) instances", "for a frozen table of (option, effect) instances (the value of on/off and button inputs counts as a default attribute value)")
 _amend("C18", "text", "(R18.1-R18.11, DESIGN.md §4 C18)", "(R18.1-R18.12, DESIGN.md §4 C18; R18.12: a length computed from the payload is not read after the payload was assigned again)")
 
+_amend("C20", "text", "DESIGN.md §4 C20", "DESIGN.md §4 C20; R20.12: the backup name of an in-place task is compared with the other tasks' inputs and outputs when the plan is made")
+_amend("C04", "text", "DESIGN.md §4 C04", "DESIGN.md §4 C04; R04.26: zeros leave a box-shadow by position only when no item is var(), attr() or env()")
+
+_amend("C01", "text", "(R01.1-R01.47;", "(R01.1-R01.50; K18: isOptionalGroup looks at the outermost link only, K19: joined strings printed as a directive, both pinned by the suite;")
+_amend("C01", "text", "Decides forty-seven structural", "Decides fifty structural")
+_amend("C02", "text", "(R02.1-R02.10 and R02.13", "(R02.1-R02.10, R02.14: the top-level renamer consults HasWith, and R02.13")
+_amend("C03", "text", "Decides twenty local clauses (R03.1-R03.20;", "Decides twenty-one local clauses (R03.1-R03.21; R03.21: a ruby part's end tag is omitted only in front of a start tag that closes it, sixteen pairs evaluated;")
+_amend("C04", "text", "R04.26: zeros leave a box-shadow", "R04.27: an escaped space is not trimmed from an @import url(); R04.26: zeros leave a box-shadow")
+_amend("C05", "text", "(R05.1-R05.25,", "(R05.1-R05.26; R05.26: no coordinate that is not finite is formatted,")
+_amend("C09", "text", "(R09.1, R09.3-R09.25 with R09.20(b)-(d)", "(R09.1, R09.3-R09.28 — R09.26 = R01.48 with the known finding K18, R09.27 = R05.26, R09.28 = R04.27 — with R09.20(b)-(e)")
+_amend("C16", "text", "(the value of on/off and button inputs counts as a default attribute value)", "(the value of on/off and button inputs counts as a default attribute value; with KeepEndTags no html, head, body or colgroup tag pair is removed)")
+
+_amend("C03", "text", "Decides twenty-one local clauses (R03.1-R03.21;", "Decides twenty-two local clauses (R03.1-R03.22; R03.22: no boolean that records an open table part is cleared by a table tag, tables nest;")
+_amend("C04", "text", "R04.27: an escaped space", "R04.28 = R16.8: minify.Decimal sees no number with an exponent; R04.29: a negative hue is wrapped before HSL2RGB; R04.27: an escaped space")
+_amend("C18", "text", "(R18.1-R18.12, DESIGN.md §4 C18;", "(R18.1-R18.13, DESIGN.md §4 C18; R18.13: the length count and parse.EncodeURL use the same escape table;")
+_amend("C16", "text", "Decides seven structural clauses (R16.1-R16.7,", "Decides eight structural clauses (R16.1-R16.8; R16.8 = R04.28: with KeepCSS2 no number with an exponent reaches minify.Decimal;")
+
 if __name__ == "__main__":
     main()
